@@ -115,19 +115,24 @@ def h03_write(R, C, row, col):
     assert check_invariant(t)
 
 
-SH = dict(R=Cases([1, 2, 3]), C=Cases([1, 2]))
+def SH(tier):
+    return dict(R=Cases([1, 2, 3] if tier == "quick" else [1, 2, 3, 4]), C=Cases([1, 2] if tier == "quick" else [1, 2, 3]))
+
+
+def CNT(tier):
+    return IntDom(1, 3 if tier == "quick" else 4)
 OUT = ["save/reopen and isolation between documents (object store, protobuf, zip)", "add_table/add_sheet cloning",
        "shapes beyond 3x2 and counts beyond 3 (loops over cells are concrete)"]
 HARNESSES = [
-    Harness("H03-add_row", h03_add_row, dict(SH, count=IntDom(1, 3), start=IntDom(), at_end=BoolDom(), with_default=BoolDom()),
-            bounds="start: every Python int or None; count 1..3; default absent/present; shapes {1,2,3} x {1,2}", outside=OUT),
-    Harness("H03-add_column", h03_add_column, dict(SH, count=IntDom(1, 3), start=IntDom(), at_end=BoolDom(), with_default=BoolDom()),
+    Harness("H03-add_row", h03_add_row, lambda tier: dict(SH(tier), count=CNT(tier), start=IntDom(), at_end=BoolDom(), with_default=BoolDom()),
+            bounds="start: every Python int or None; count 1..3 (quick) / 1..4 (thorough); default absent/present; shapes {1,2,3} x {1,2} (quick) / {1..4} x {1,2,3} (thorough)", outside=OUT),
+    Harness("H03-add_column", h03_add_column, lambda tier: dict(SH(tier), count=CNT(tier), start=IntDom(), at_end=BoolDom(), with_default=BoolDom()),
             bounds="start: every Python int or None; count 1..3; default absent/present"),
-    Harness("H03-delete_row", h03_delete_row, dict(SH, count=IntDom(1, 3), start=IntDom(), at_end=BoolDom()),
+    Harness("H03-delete_row", h03_delete_row, lambda tier: dict(SH(tier), count=CNT(tier), start=IntDom(), at_end=BoolDom()),
             bounds="start: every Python int or None; count 1..3 with the rows present (documented precondition)"),
-    Harness("H03-delete_column", h03_delete_column, dict(SH, count=IntDom(1, 3), start=IntDom(), at_end=BoolDom()),
+    Harness("H03-delete_column", h03_delete_column, lambda tier: dict(SH(tier), count=CNT(tier), start=IntDom(), at_end=BoolDom()),
             bounds="start: every Python int or None; count 1..3 with the columns present"),
-    Harness("H03-write", h03_write, dict(SH, row=IntDom(), col=IntDom()),
+    Harness("H03-write", h03_write, lambda tier: dict(SH(tier), row=IntDom(), col=IntDom()),
             bounds="position: every Python int pair that is negative, beyond the limits, or grows the table by <= 2"),
 ]
 PROPERTY = "C03"
